@@ -25,32 +25,10 @@ theorem keepsFree_add : KeepsFree addInitsToInputs := by
     simp [ha]
   rw [this, List.append_nil]
 
-mutual
-theorem mapInputsG_sound (I : Interp Val) (f : List VId → List VId → List VId) (hf : KeepsFree f) :
-    ∀ (g : Graph) (ρ : Env Val), evalG I (mapInputsG f g) ρ = evalG I g ρ
+theorem mapInputsTop_sound (I : Interp Val) (f : List VId → List VId → List VId) (hf : KeepsFree f) :
+    ∀ (g : Graph) (ρ : Env Val), evalG I (mapInputsTop f g) ρ = evalG I g ρ
   | .mk inputs outputs inits nodes, ρ => by
     funext xs
-    simp only [mapInputsG, evalG, hf inputs (inits.map Prod.fst)]
-    apply List.map_congr_left
-    intro v _
-    exact mapInputsNodes_sound I f hf nodes _ v
-theorem mapInputsNodes_sound (I : Interp Val) (f : List VId → List VId → List VId) (hf : KeepsFree f) :
-    ∀ (ns : List Node) (ρ : Env Val) (v : VId),
-    evalNodes I (mapInputsNodes f ns) ρ v = evalNodes I ns ρ v
-  | [], _, _ => by simp [mapInputsNodes]
-  | n :: ns, ρ, v => by
-    simp only [mapInputsNodes, evalNodes]
-    rw [mapInputsN_sound I f hf n ρ]
-    exact mapInputsNodes_sound I f hf ns _ v
-theorem mapInputsN_sound (I : Interp Val) (f : List VId → List VId → List VId) (hf : KeepsFree f) :
-    ∀ (n : Node) (ρ : Env Val), evalN I (mapInputsN f n) ρ = evalN I n ρ
-  | .mk op attrs ins outs bodies, ρ => by
-    simp only [mapInputsN, evalN, mapInputsBodies_sound I f hf bodies ρ]
-theorem mapInputsBodies_sound (I : Interp Val) (f : List VId → List VId → List VId) (hf : KeepsFree f) :
-    ∀ (bs : List Graph) (ρ : Env Val), evalBodies I (mapInputsBodies f bs) ρ = evalBodies I bs ρ
-  | [], _ => by simp [mapInputsBodies, evalBodies]
-  | b :: bs, ρ => by
-    simp only [mapInputsBodies, evalBodies, mapInputsG_sound I f hf b ρ, mapInputsBodies_sound I f hf bs ρ]
-end
+    simp only [mapInputsTop, evalG, hf inputs (inits.map Prod.fst)]
 
 end IrVerif.Passes
